@@ -67,12 +67,18 @@ func selfExe() string {
 	return p
 }
 
+// raceLog, when set, makes workers run with GORACE logging to that path prefix.
+var raceLog string
+
 func runOne(exe string, args []string, timeout time.Duration) (out []byte, errOut []byte, code int, timedOut bool) {
 	cmd := exec.Command(exe, args...)
 	var so, se bytes.Buffer
 	cmd.Stdout = &so
 	cmd.Stderr = &se
-	cmd.Env = append(os.Environ(), "GOMAXPROCS=2")
+	cmd.Env = append(os.Environ(), "GOMAXPROCS=2", "XJSVERIF_PLAIN="+selfExe())
+	if raceLog != "" {
+		cmd.Env = append(cmd.Env, "GORACE=halt_on_error=0 log_path="+raceLog, "VERIF_RACE_LOG="+raceLog)
+	}
 	if err := cmd.Start(); err != nil {
 		return nil, []byte(err.Error()), -1, false
 	}
@@ -131,6 +137,9 @@ func RunCheck(o CheckOpts) int {
 	runDir := filepath.Join(VerifRoot, ".build", "run", o.Prop+"-"+o.Tier)
 	os.RemoveAll(runDir)
 	os.MkdirAll(runDir, 0o755)
+	if p.Race {
+		raceLog = filepath.Join(runDir, "race")
+	}
 
 	merged := NewResult()
 	var mu sync.Mutex
@@ -237,7 +246,7 @@ func RunCheck(o CheckOpts) int {
 		go func(ci *classInfo) {
 			defer cwg.Done()
 			defer func() { <-sem }()
-			ok := ReplayCase(exe, ci.v)
+			ok := ci.v.NoReplay || ReplayCase(exe, ci.v)
 			cmu.Lock()
 			ci.confirmed = ok
 			cmu.Unlock()
